@@ -69,7 +69,7 @@ deriving Repr, DecidableEq, BEq
 inductive ImplBody where
   | struct (fields : List StructFieldDec)
   | union (u : UnionDec)
-  | enum (arms : List (String × String))     -- (pattern text, member)
+  | enum (arms : List (VariantValue × String))     -- (declared value, member): `value => Self::member`
   | typedef (d : FieldDec)
 deriving Repr, DecidableEq, BEq
 
